@@ -117,6 +117,7 @@ class Engine(FsMixin, ExprMixin, StmtMixin, CallMixin, SpecMixin, BuiltinMixin, 
         self.nstmts = self.nfeas = self.nawaits = 0
         self.entry_state = None
         self.loops = {}
+        self.local_types = {}
         self.track_writes = set()
         self.effect_guards = {}
         self.current_key = None
@@ -216,6 +217,7 @@ class Engine(FsMixin, ExprMixin, StmtMixin, CallMixin, SpecMixin, BuiltinMixin, 
         self.loops = c.get("loops", {})
         self.interference = c.get("interference")
         self.track_writes = set(c.get("track_writes", []))
+        self.local_types = dict(c.get("locals", {}))
         self.effect_guards = c.get("effect_guards", {})
         self.current_key = key
         # ordinal of each for-loop among the loops of the function with the same target text (source order)
